@@ -79,7 +79,7 @@ def model_requests(prog, preds, any_winners=False):
   return {'op': 'denote', 'rules': a['rules'], 'strata': a['strata'], 'query': [p.name for p in preds]}
 
 
-def compare(ck, prog, text, preds, real, model, key_of, extra=None):
+def compare(ck, prog, text, preds, real, model, key_of, extra=None, ignore_empty_list=False):
   """Report property violations (real rows / columns differ from the denotation)."""
   n_bad = 0
   if 'error' in model:
@@ -115,6 +115,8 @@ def compare(ck, prog, text, preds, real, model, key_of, extra=None):
           out.append(json.dumps({k: (None if v == [] else v) for k, v in d.items()}, sort_keys=True))
         return sorted(out)
       if empties_to_null(got) == empties_to_null(exp_rows):
+        if ignore_empty_list:
+          continue    # a C02 matter (recorded there), not this property's
         ck.violation('list-aggregating-nothing-gives-empty-list',
                      'predicate %s: List over no solutions returns [] instead of null' % p.name, rp)
         n_bad += 1
@@ -141,7 +143,7 @@ def _gen_one(job):
     if builder is None:
       prog = G.Gen(rng, mask, **kwargs).generate()
     else:
-      prog = builder(rng, mask, kwargs)
+      prog = builder(rng, mask, dict(kwargs, _seed=seed))
     req = model_requests(prog, prog.preds)
     try:
       o = subprocess.run([core.DRIVER], input=(json.dumps(req, ensure_ascii=False) + '\n').encode('utf-8'),
